@@ -244,6 +244,17 @@ def run(check, an: Analysis):
                            'a path from entry to normal completion has no suspension '
                            'that must suspend', path=bad.describe(), analysed=len(summ.paths))
     check.floor('Y', 45, 'C20 obligations confirmed by hand')
+    # "suspends" means: the others get their turn before the operation goes on.  That holds
+    # only if the wake-up of a postponement is queued *behind* what is runnable now: it is a
+    # signal made for this pause, not one that may still have an older place in the queue
+    # (rule shared with C03)
+    check.rule('W', 'postpone()/suspend() wake their caller by a signal of their own, '
+                    'withdrawn on every exit')
+    from . import c03, _scope
+    c03.check_own_wakeup_is_fresh(check, an, 'W')
+    c03._check_signal_lifecycles(
+        check, an, _scope.wrapper_callee(an), rule='W',
+        only=lambda fn, cls: fn.cls is None and fn.module.name == 'usim._primitives.notification')
     budget = 0
     if len(an.it.unresolved) > budget:
         raise AnalysisError('unresolved await sites: %s' % an.it.unresolved)
